@@ -81,6 +81,21 @@ def run(rep, tier, rng, replay=None):
                           (line.split()[0], fr["notes"][i], tot.comparable_free(od)[:150], tot.comparable_free(orl)[:150], om[:150]),
                           dict(kind="free-descriptor", case=line, note=fr["notes"][i],
                                failing="correspondence raw iteration / blob model vs implementation for descriptors outside what XML can express"), no_input=True)
+    # XML-dependent results: E57Reader::new against the full reader model of slice xe (file layer + XML parser + extractors)
+    xml_cmp = dict(cases=0, unsupported=0, disagreements=0, classes={})
+    try:
+        from props import xe
+        files = [m["phys"] for m in muts if (m["kind"].startswith("xml-") or m["base"] == "crafted") and 0 < len(m["phys"]) <= tot.MODEL_MAX_BYTES]
+        if files and not replay:
+            st = xe.differential_files(core.Rng(rng.next()), files)
+            xml_cmp = dict(cases=st["cases"], unsupported=st["unsupported"], disagreements=len(st["disagreements"]), classes=st["classes"])
+            rep.count(st["cases"])
+            for f, r, mo in st["disagreements"][:3]:
+                n_corr += 1
+                rep.violation("correspondence-c08", "E57Reader::new and the full reader model (XML layer included) differ on an XML-mutated file: impl [%s] model [%s]" % (r[:160], mo[:160]),
+                              dict(kind="file", file=f.hex(), failing="correspondence E57Reader::new vs Model/ReaderFull.reader_new (slice xe) on XML-mutated files"), no_input=True)
+    except ImportError:
+        pass
     # the large bundled files, implementation only
     for i, m in enumerate(res["big"]["muts"]):
         rep.count(2)
@@ -93,7 +108,7 @@ def run(rep, tier, rng, replay=None):
     rep.cov.update(mutants=len(muts), mutation_kinds=kinds, base_files=[dict(name=b.name, bytes=len(b.phys), origin=b.origin, point_clouds=len(b.cv), blobs=len(b.blobs)) for b in res["bases"]],
                    simple_iterator_option_vectors=res["masks"], free_descriptor_cases=n_free, large_bundled_files=[m["base"] for m in res["big"]["muts"]],
                    result_classes=dict(sorted(classes.items(), key=lambda kv: -kv[1])[:40]), panicking_inputs=n_pan, panic_entry_points=entries,
-                   debug_release_differences=n_prof, model_runs=n_model, xml_layer_not_modelled=n_skip, correspondence_failures=n_corr,
+                   debug_release_differences=n_prof, xml_layer_compared_with_full_reader_model=xml_cmp, model_runs=n_model, xml_layer_not_modelled=n_skip, correspondence_failures=n_corr,
                    traces_validated_against_impl=n_model + n_free)
     if muts:
         k = len(muts) // 2
